@@ -12,3 +12,17 @@ check(
     "Trusted: the reference evaluator Sem (lexical scoping of indices). Exceptions from a pass are counted as rejections, not alarms. Depth/alphabet bounds as stated in the evidence; variables are pre-built terminals (scalar, vector, matrix).",
     "DESIGN.md 3 C10",
 )
+check(
+    "C06",
+    "exhaustive operator-table enumeration (operators x shapes x operand kinds x nestings) + complete {0,1}^(n*n) matrix grids, real lowering vs reference definitions",
+    "Every compound tensor/differential operator x every operand shape it accepts (1..4 square, rectangular, vectors 2/3, ranks 1-3) x operand kinds (coefficient, sum, list tensor, zero rows, scaled, transposed, operands with free indices) x all unary-after-unary/binary nestings is lowered by the real apply_algebra_lowering and compared in shape, free indices and value (real and complex data) with the operator's definition; the hand-expanded det/cofactor/inverse/deviatoric tables are checked on the complete {0,1} grid of matrix entries (a proof of the multilinear polynomial identity for n<=3, n=4 in the thorough tier) and pseudo-determinant/-inverse on integer grids of rectangular matrices.",
+    "Trusted: reference definitions in /verif/mc/sem (Leibniz determinant, Gauss-Jordan inverse, textbook div/curl/grad via jets); conjugation conventions taken from the public docstrings; pseudo-determinant/-inverse for real matrices only.",
+    "DESIGN.md 3 C06",
+)
+check(
+    "C07",
+    "exhaustive enumeration of all integer-grid affine cells x facets x orientations; real geometry lowering evaluated vs direct vertex geometry",
+    "For every cell type (interval in 1D/2D/3D, triangle in 2D/3D, tetrahedron) every non-degenerate cell with vertices on the stated integer grid, every facet and both orientations on immersed cells: each geometric quantity is lowered by the real apply_geometry_lowering and the resulting expression (in J, reference-cell tables, CellOrientation) evaluated by the reference evaluator equals the quantity computed directly from the vertex coordinates (Gram determinants, circumcentre system, Gram-Schmidt normals, vertex-pair distances).",
+    "Trusted: FEniCS/basix reference-cell tables (appendix B of DESIGN.md) and the vertex formulas in /verif/mc/sem/cells.py (self-tested with Cayley-Menger/Heron identities). Ridge quantities and non-affine cells are not covered. Quantities UFL refuses to lower are counted, not alarms.",
+    "DESIGN.md 3 C07",
+)
